@@ -609,6 +609,17 @@ class ExtMixin:
                     return R(dflt)
                 from .interp_stmt import ForkIndex
                 return self.fork_index(ForkIndex(list(tbl), dflt), a[0], st, fr, node)
+            if attr == "get" and a and base.kind == "dict" and cell.opaque:
+                # a symbolic table: the key is present (an entry's value) or it is not (the default, None when not given)
+                dflt = args[1] if len(args) > 1 else kw.get("default", Const(None))
+                label = base.label or path_text(node.func.value) or "dict"
+                s2 = st.fork()
+                self.budget()
+                hit = Sym(st.fresh_name(label + ".val"), "int", role=("dict-val", label, "get"), key=a[0])
+                ksym = Sym(("keyof", label), "int", role=("dict-key", label, "get"))     # "some key of the table"
+                self.event(st, fr, "cond", node, (True, (a[0], ksym)))
+                self.event(s2, fr, "cond", node, (False, (a[0], ksym)))
+                return [(st, hit), (s2, dflt)]
             if attr == "get":
                 return R(Unknown(why="dict.get"))
             if attr == "decode":
